@@ -249,6 +249,25 @@ pub fn run(tier: Tier) -> i32 {
             }
         });
         st.merge(res);
+        // N rows of one surface (and one other word in between), N around 16 and 256
+        for n in tier.pick(vec![17usize, 257], vec![16, 17, 255, 256, 257, 300]) {
+            let feats: Vec<String> = (0..=n).map(|i| format!("hom{i},g")).collect();
+            let rows: Vec<RowSpec> = (0..=n)
+                .map(|i| RowSpec {
+                    raw_surface: if i == n / 2 { "b" } else { "a" },
+                    surface: if i == n / 2 { "b" } else { "a" },
+                    left_raw: if i % 2 == 0 { "0" } else { "1" },
+                    left: (i % 2) as u16,
+                    right: ((i / 2) % 2) as u16,
+                    cost: (i % 100) as i16,
+                    tail: Box::leak(feats[i].clone().into_boxed_str()),
+                    term: "\n",
+                })
+                .collect();
+            let refs: Vec<&RowSpec> = rows.iter().collect();
+            check_file(&refs, "", &mut st);
+            st.count("files_with_many_homographs");
+        }
     }
     rep.rule = "state = lexicon CSV file of 1-3 rows, each row the product of a raw surface field (plain, with space, quoted with comma, quoted with doubled quote, gratuitously quoted, multi-byte, empty), an id/cost combination (incl. extremes and a quoted number), a raw feature tail (plain, several cells, quoted cell with comma, stray quote, empty, '*', quoted cell with a line break, spaces and empty cells) and a row terminator (LF, CRLF, none at EOF, LF LF), optionally after a leading blank line; plus every sequence of up to 6/7 rows over the surfaces {a, ab, b} (homographs adjacent, separated, interleaved); built by the real builder; oracle: one word per non-empty-surface row in order, feature == raw tail byte for byte, lexicon candidates of each surface == its homograph multiset; the expected values come from the generating structure, no parser involved; distinct = distinct expected word lists".into();
     rep.bounds = json!({"row_menu_2": n2, "row_menu_3": n3, "three_row_files": tier.pick("diagonal slice", "all")});
@@ -265,6 +284,7 @@ pub fn run(tier: Tier) -> i32 {
             "files_with_homographs",
             "surfaces_looked_up",
             "surface_order_files",
+            "files_with_many_homographs",
         ],
     )
 }
